@@ -9,6 +9,14 @@ func extras(prop string) (map[string]any, []string) {
 			"the independent oracle trusts math/big, crypto/sha512 and crypto/ed25519",
 			"a PartialSig with a nil Partial or nil scalar is not generated (no wire decoding can produce a typed nil here without the application's own decoder)",
 		}
+	case "C11":
+		return nil, []string{
+			"network model: phase-synchronous reliable broadcast (every packet sent in phase k reaches every live honest node before that node's tick to k+1); per-recipient order, multiplicity and position relative to other nodes' ticks are free",
+			"faulty parties (crash-stop or Byzantine) stay within n-t (resharing: old-t dealers, new-t holders)",
+			"Byzantine behaviour is a finite menu (DESIGN §3 C11); a Byzantine party still runs its real object and its driver rewrites and re-signs what the object emits",
+			"membership is asserted only for the two cases the property names (honest live dealers in; dealers whose invalid/missing deal to an honest party stays unjustified out); everything else is checked through agreement",
+			"trusted: math/big Lagrange interpolation, the harness's Horner evaluation, testing/synctest quiescence",
+		}
 	case "C10":
 		return nil, []string{
 			"sampling within n<=6, t in 2..n, <=3000 events per run; both VSS variants on Ed25519",
